@@ -6,7 +6,7 @@ GEN = 'C19'
 MODEL_FN = 'Model/FileT.v:sstep/fstep (repaired)'
 RULE = ('the registered file transport in the harness process: forced: one sender is parked through the verif schedule point '
         'between obtaining the current writer and writing, the output file is renamed and SIGHUP delivered to the process '
-        '(rotation placed exactly inside that window), then the sender is released; free: 2..32 goroutines sending distinct '
+        '(rotation placed exactly inside that window), then the sender is released; forced2: TWO such rotations while the same sender stands in the window; free: 2..32 goroutines sending distinct '
         'self-delimiting messages {id:len:xxxx} of 1..20000 bytes with separators "\\n", "" and "<|>" and 0..5 SIGHUP '
         'rotations (with rename) at random moments; afterwards old + new files are parsed into units: every Send returned '
         'nil, every id exactly once, nothing garbled. expected = the repaired model on the forced schedule (no error, nothing '
@@ -31,6 +31,8 @@ def run(chk):
     for sep in seps:
         for ns in (2, 4, 8, 32):
             lines.append('filet forced #%x #%x #%x =%s #%x' % (ns, 5, rng.randrange(0, 3), sep, rng.randrange(1 << 30)))
+            # two rotations while one sender stands between picking the writer and writing
+            lines.append('filet forced2 #%x #%x #%x =%s #%x' % (ns, 5, rng.randrange(0, 3), sep, rng.randrange(1 << 30)))
     nfree = dict(quick=24, thorough=300)[chk.tier]
     for _ in range(nfree):
         lines.append('filet free #%x #%x #%x =%s #%x' % (rng.choice([2, 3, 8, 16, 32]), rng.choice([5, 20, 60]),
@@ -38,7 +40,7 @@ def run(chk):
     impl = [impl_run(chk.harness, [l], timeout=120.0, limit_mem=False)[0] for l in lines]
     mod = model_run(GEN, lines)
     chk.evals += len(lines)
-    chk.count('forced', 12)
+    chk.count('forced', 24)
     chk.count('free', nfree)
     for a, o, m in zip(lines, impl, mod):
         if ' #0 =' not in a or 'forced' in a:
